@@ -268,13 +268,6 @@ type verifLink struct {
 	// stageTail: the server is inside serveStage waiting for transmissions.
 	stageTail bool
 
-	// sched: bounded-schedule mode (harness "session"): the server runs as a
-	// goroutine of its own, the two directions are buffered channels and a
-	// reader blocks until a message has been flushed to it.
-	sched      bool
-	toServerCh chan proto.Message
-	toClientCh chan proto.Message
-
 	// flagsOf/flags: the snapshot most recently scripted for the wrapped
 	// endpoint and its flags byte as one term (see verifMarshal).
 	flagsOf *core.Snapshot
@@ -293,20 +286,6 @@ type verifFlusher struct {
 
 func (f *verifFlusher) Flush() error {
 	n := verifNet
-	if n.sched {
-		if f.client {
-			for _, m := range n.toServerPending {
-				n.toServerCh <- m
-			}
-			n.toServerPending = nil
-		} else {
-			for _, m := range n.toClientPending {
-				n.toClientCh <- m
-			}
-			n.toClientPending = nil
-		}
-		return nil
-	}
 	if f.client {
 		n.toServer = append(n.toServer, n.toServerPending...)
 		n.toServerPending = nil
@@ -336,21 +315,6 @@ func verifEncode(e *encoding.ProtobufEncoder, m proto.Message) error {
 // waits for a message that has not arrived yet.
 func verifDecode(d *encoding.ProtobufDecoder, m proto.Message) error {
 	n := verifNet
-	if n.sched {
-		var head proto.Message
-		if d == n.clientDec {
-			head = <-n.toClientCh
-		} else if d == n.serverDec {
-			head = <-n.toServerCh
-		} else {
-			vFail("link model: unknown decoder")
-		}
-		if !verifFill(m, head) {
-			vAssert(false, "control stream in step: the reader received the message kind it waits for")
-			return verifErrStarved
-		}
-		return nil
-	}
 	if d == n.clientDec {
 		if len(n.toClient) == 0 {
 			n.runServer()
@@ -387,7 +351,7 @@ func verifDecode(d *encoding.ProtobufDecoder, m proto.Message) error {
 }
 
 func (n *verifLink) runServer() {
-	if n.serverDead || n.sched {
+	if n.serverDead {
 		return
 	}
 	n.serverIdle = false
@@ -411,11 +375,6 @@ func (n *verifLink) settle() {
 // required to end in it (unless the session is over by design), which is what
 // lets operations of any kind follow each other.
 func (n *verifLink) quiescent() bool {
-	if n.sched {
-		// The server runs on its own; all that can be said at this point is
-		// that it has not stopped serving.
-		return !n.serverDead && len(n.toServerPending) == 0 && len(n.toClientPending) == 0
-	}
 	n.runServer()
 	return len(n.toServer) == 0 && len(n.toServerPending) == 0 &&
 		len(n.toClient) == 0 && len(n.toClientPending) == 0 &&
@@ -484,32 +443,7 @@ type verifCtx struct {
 func (c *verifCtx) Done() <-chan struct{} { return c.done }
 func (c *verifCtx) Err() error            { return context.Canceled }
 
-// verifLiveCtx (bounded-schedule mode): a context whose Done channel is closed
-// by its cancel function; the parents used here are never cancelled.
-type verifLiveCtx struct {
-	context.Context
-	done      chan struct{}
-	cancelled bool
-}
-
-func (c *verifLiveCtx) Done() <-chan struct{} { return c.done }
-func (c *verifLiveCtx) Err() error {
-	if c.cancelled {
-		return context.Canceled
-	}
-	return nil
-}
-
 func verifWithCancel(parent context.Context) (context.Context, context.CancelFunc) {
-	if verifNet != nil && verifNet.sched {
-		c := &verifLiveCtx{Context: parent, done: make(chan struct{})}
-		return c, func() {
-			if !c.cancelled {
-				c.cancelled = true
-				close(c.done)
-			}
-		}
-	}
 	ch := make(chan struct{})
 	close(ch)
 	return &verifCtx{Context: parent, done: ch}, func() {}
@@ -1395,69 +1329,4 @@ func VerifC21Poll() {
 			vAssert(err == nil, "poll: a successful poll of the wrapped endpoint succeeds")
 		}
 	}
-}
-
-// ---------------------------------------------------------------------------
-// Session (bounded-schedule mode): client and server as concurrent goroutines.
-// Stage with everything required, the supplier's transmissions forwarded by the
-// real tail of serveStage, then two transitions with live contexts (the
-// completion request is sent only after the response has arrived, or races
-// with it - whatever the explored schedules allow).
-
-func verifConnectSched(ep *verifEndpoint) *endpointClient {
-	client := verifConnect(ep)
-	n := verifNet
-	n.sched = true
-	n.toServerCh = make(chan proto.Message, 64)
-	n.toClientCh = make(chan proto.Message, 64)
-	go func() {
-		n.serverErr = n.server.serve()
-		n.serverDead = true
-	}()
-	return client
-}
-
-func VerifC21Session() {
-	nf := vParam("files", 1)
-	ep := &verifEndpoint{}
-	client := verifConnectSched(ep)
-
-	paths := make([]string, nf)
-	digests := make([][]byte, nf)
-	var want []*rsync.Transmission
-	for i := 0; i < nf; i++ {
-		vLabel("stage.path")
-		paths[i] = vString(1)
-		vLabel("stage.digest")
-		digests[i] = vBytes(1)
-		ep.stagePaths = append(ep.stagePaths, paths[i])
-		ep.stageSignatures = append(ep.stageSignatures, &rsync.Signature{})
-		vLabel("transmission.size")
-		size := vU64()
-		vLabel("transmission.data")
-		d := vBytes(1)
-		want = append(want, &rsync.Transmission{ExpectedSize: size, Operation: &rsync.Operation{Data: d}}, &rsync.Transmission{Done: true})
-	}
-	vLabel("")
-	asked := append([]string(nil), paths...)
-
-	gotPaths, gotSignatures, receiver, err := client.Stage(paths, digests)
-	vAssert(err == nil && receiver != nil, "session: staging succeeds and hands out a receiver")
-	if err != nil || receiver == nil {
-		return
-	}
-	vAssert(verifSameStrings(gotPaths, asked), "session: the required paths equal the wrapped endpoint's")
-	vAssert(verifSameSignatures(gotSignatures, ep.stageSignatures), "session: the signatures equal the wrapped endpoint's")
-
-	err = rsync.DecodeToReceiver(&verifScript{stream: verifCopyStream(want)}, uint64(nf), receiver)
-	vAssert(err == nil, "session: the client's staging receiver accepts the supplier's transmissions")
-
-	// The next operations on the same connection.  The server answers them only
-	// after serveStage has forwarded every transmission and returned.
-	verifTransitionOnce(ep, client, -1, 1, false)
-	vAssert(verifSameStream(ep.stageRecorder.got, want), "session: the wrapped endpoint's receiver is given exactly the supplier's transmissions, in order")
-	vAssert(ep.stageRecorder.finalized == 1, "session: the wrapped endpoint's receiver is finalized exactly once")
-	vCover("session: files forwarded by the server")
-	verifTransitionOnce(ep, client, -1, 1, false)
-	vCover("session: two transitions after staging")
 }
